@@ -76,6 +76,17 @@ def run_rod(ctx, p):
     L, kap, N = float(s.L), float(s.kappa), int(s.Nsum)
     TL, TR = float(s.TL), float(s.TR)
     (a1, b1, c1), (a2, b2, c2) = rod_bc_of(s)
+    # the expected boundary data and end temperatures come from what the *user* passed, not from the solver's attributes:
+    # sandwiches map (TB, TT) / (F, F) / (TB, FT) to the two boundary conditions as their documentation says
+    if p["cls"] == "PlanarSandwich":
+        (a1, b1, c1), (a2, b2, c2) = (1.0, 0.0, float(kw["TB"])), (1.0, 0.0, float(kw["TT"]))
+    elif p["cls"] == "PlanarSandwichHot":
+        (a1, b1, c1), (a2, b2, c2) = (0.0, 1.0, float(kw["F"])), (0.0, 1.0, float(kw["F"]))
+    elif p["cls"] == "PlanarSandwichHalf":
+        (a1, b1, c1), (a2, b2, c2) = (1.0, 0.0, float(kw["TB"])), (0.0, 1.0, float(kw["FT"]))
+    else:
+        (a1, b1, c1), (a2, b2, c2) = tuple(float(kw[k]) for k in ("alpha1", "beta1", "gamma1")), tuple(float(kw[k]) for k in ("alpha2", "beta2", "gamma2"))
+    TL, TR, L, kap = float(kw["TL"]), float(kw["TR"]), float(kw["L"]), float(kw["kappa"])
     name, br = cls.__name__, p["label"]
     amp = max(abs(TL), abs(TR), abs(c1), abs(c2), 1e-3) * (1 + L)
     t = p["tf"] * L * L / kap
@@ -92,6 +103,11 @@ def run_rod(ctx, p):
         Tt = np.array([T1d(ctx, s, [x0], t + k * ht / 2)[0] for k in OFF9])
         _, _, _, Txx, eTxx = derivs9(X, hx)
         _, Tt1, eTt, _, _ = derivs9(Tt, ht)
+        # the series is summed from terms of the size of the boundary/initial data: its rounding noise is eps x amp (not
+        # eps x |T|), amplified by the stencils - it dominates where the local temperature is a small remainder
+        noise = 100 * 2.2e-16 * amp
+        eTxx += noise / (hx / 2) ** 2
+        eTt += noise / (ht / 2)
         ok, res, sc = residual([Tt1, -kap * Txx], [eTt, kap * eTxx], tol=1e-5)
         triv = sc <= 1e-7 * amp * kap / (L * L)
         ctx.observe("heat.pde", name, True if triv else ok, branch=br, measure=res, tol=1e-5, nontrivial=not triv, detail=dict(det, x=x0))
